@@ -501,17 +501,21 @@ func init() {
 	}
 	I["(*sync.Once).Do"] = func(m *Machine, fr *frame, pos token.Pos, _ *ssa.Function, a []Value) Value {
 		p := a[0].(*Value)
+		if m.onceDone == nil {
+			m.onceDone = map[*Value]bool{}
+		}
+		if m.onceDone[p] {
+			return nil
+		}
+		m.lock(p) // a second caller waits until the first call of f has returned
 		s := m.mutex(p)
-		if s.readers == 0 { // readers field reused as "done" flag for Once
-			m.lock(p)
-			if s.readers == 0 {
-				func() {
-					defer func() { s.readers = 1; s.locked = false }()
-					m.call(fr, pos, a[1], nil)
-				}()
-			} else {
-				s.locked = false
-			}
+		if !m.onceDone[p] {
+			func() {
+				defer func() { m.onceDone[p] = true; s.locked = false }()
+				m.call(fr, pos, a[1], nil)
+			}()
+		} else {
+			s.locked = false
 		}
 		return nil
 	}
